@@ -630,6 +630,34 @@ def noisy_read(src, name, chrom, strand, exons, kind, mapq=60):
             if e_ - ln < 10:
                 return None
             ex = [[e_ - ln + 1, e_]] + ex[1:]
+    elif kind == "tinyterm":
+        # the read ends (starts) with a 2-6 bp block that lies inside an annotated intron right before its acceptor
+        # (after its donor): the read's terminal junction is within delta of the annotated one
+        if n < 3:
+            return None
+        d = src.int(2, 6)
+        if src.bool(0.5):
+            i = src.int(1, n - 2)
+            iend = ex[i + 1][0] - 1
+            if iend - ex[i][1] < 60:
+                return None
+            ex = ex[:i + 1] + [[iend - d + 1, iend]]
+        else:
+            i = src.int(1, n - 2)
+            istart = ex[i - 1][1] + 1
+            if ex[i][0] - istart < 60:
+                return None
+            ex = [[istart, istart + d - 1]] + ex[i:]
+    elif kind == "fakemicro":
+        # a short first block that spans an annotated micro-intron and is followed by an extra intron
+        cand = [i for i in range(n - 1) if ex[i + 1][0] - ex[i][1] - 1 <= 50 and ex[i + 1][1] - ex[i + 1][0] > 160]
+        if not cand:
+            return None
+        i = cand[0]
+        a = ex[i][1] - src.int(3, 8)
+        b = ex[i + 1][0] + src.int(6, 12)
+        gap = src.int(60, 90)
+        ex = [[a, b], [b + gap + 1, ex[i + 1][1]]] + ex[i + 2:]
     elif kind == "microir":
         cand = [i for i in range(n - 1) if ex[i + 1][0] - ex[i][1] - 1 <= 50]
         if not cand:
